@@ -39,7 +39,8 @@ def plan(tier, prop):
                 "operations, then a healed write+read-back; non-trivial = at "
                 "least one operation completed; distinct = distinct abstract "
                 "event traces (op kinds, command kinds, fault kinds, outcomes)",
-        "expected_probes": ["multi_chunk", "unaligned", "zero_length", "top_of_address_space",
+        "expected_probes": ["seq_time_warp", "struct_definitions_replaced", "write_data_form", "array_values_as_bytes",
+                            "multi_chunk", "unaligned", "zero_length", "top_of_address_space",
                             "op_timeout", "struct_field", "vcpu_field",
                             "link_op", "fill_aligned", "fill_unaligned",
                             "windowed", "direct_scp", "tcm_core_space"],
